@@ -27,7 +27,7 @@ EXTRA_TARGETS = ("Gen/SchedSasa.vo",)
 EXTS = ["_geometry", "_rmsd", "drid", "neighbors", "neighborlist"]
 RULE = ("(environment, trajectory, analysis) triples: environment = OMP_NUM_THREADS in {1,2,3,5,8,16,frames+3} x OMP_SCHEDULE in "
         "{static,dynamic,guided} x OMP_DYNAMIC in {unset,true}, one process each; trajectory = frames of tests/data/2EQQ.pdb or "
-        "seeded random coordinates (with/without box); analysis = one of the per-frame functions; for each triple the whole "
+        "seeded random coordinates (no cell, constant rectangular cell, or a cell whose kind O/T and size change per frame); analysis = one of the per-frame functions; for each triple the whole "
         "trajectory, every frame alone, a permuted trajectory and a repeated call are hashed per frame and compared for "
         "equality; non-trivial = trajectory has >= 2 frames and more frames than one thread's share for some thread "
         "(threads < frames) or a permutation that moves the frame; distinct by hash of the triple")
@@ -44,7 +44,16 @@ ASSUMPTIONS = ["OpenMP runtime (libgomp) semantics: which schedule is chosen and
 ANALYSES = ["distances", "displacements", "angles", "dihedrals", "distances_pbc", "angles_pbc", "dihedrals_pbc", "rmsd",
             "rmsd_serial", "rmsd_subset", "superpose", "superpose_serial", "superpose_subset", "sasa_atom", "sasa_residue", "neighbors",
             "neighborlist", "rg", "center_of_mass", "drid", "inertia_tensor", "contacts", "dssp", "kabsch_sander",
-            "wernet_nilsson", "baker_hubbard_1"]
+            "wernet_nilsson", "baker_hubbard_1", "baker_hubbard_union",
+            # periodic paths (run on every trajectory that has a cell; the cell-mix trajectories run only these)
+            "displacements_pbc", "distances_pbc_noopt", "density", "contacts_pbc", "wernet_nilsson_pbc",
+            "baker_hubbard_pbc", "baker_hubbard_union_pbc"]
+PERIODIC = ["distances_pbc", "displacements_pbc", "distances_pbc_noopt", "angles_pbc", "dihedrals_pbc", "neighbors",
+            "neighborlist", "contacts_pbc", "wernet_nilsson_pbc", "baker_hubbard_pbc", "baker_hubbard_union_pbc", "density"]
+# per-frame cell KIND patterns (O rectangular, T sheared), cycled over the frames: a shortcut that decides the
+# kernel, a buffer size or a grid once per call from frame 0 (or from "all frames") shows up as a frame whose value
+# changes with its company
+CELL_PATTERNS = ["OTTTT", "TOOOO", "OOTOO", "OTOTO", "TTOTT"]
 SASA = ("sasa_atom", "sasa_residue")
 PARALLEL_FLAG_PAIRS = [("rmsd", "rmsd_serial"), ("superpose", "superpose_serial")]    # parallel=True vs parallel=False
 DESC_SASA = ("shrake_rupley: a frame's areas depend on which frames the same thread processed before "
@@ -229,7 +238,25 @@ def trajs_for(ctx):
             "seed": rng.randrange(10 ** 6), "box": True}]
     out.append({"id": "rand-nobox", "kind": "random", "n_atoms": rng.choice([33, 64]), "n_frames": rng.choice([3, 8, 12]),
                 "seed": rng.randrange(10 ** 6), "box": False})
+    # cells that change kind and size from frame to frame; first frame rectangular in one, sheared in the other
+    pats = list(CELL_PATTERNS)
+    rng.shuffle(pats)
+    first_o = [p for p in pats if p[0] == "O"][0]
+    first_t = [p for p in pats if p[0] == "T"][0]
+    out.append({"id": "cellmix-" + first_o, "kind": "random", "n_atoms": rng.choice([28, 44]), "n_frames": rng.choice([5, 6, 7]),
+                "seed": rng.randrange(10 ** 6), "cell": first_o, "cell_seed": rng.randrange(10 ** 6), "only": PERIODIC})
+    out.append({"id": "cellmix-" + first_t, "kind": "random", "n_atoms": rng.choice([28, 44]), "n_frames": rng.choice([5, 6, 7]),
+                "seed": rng.randrange(10 ** 6), "cell": first_t, "cell_seed": rng.randrange(10 ** 6), "only": PERIODIC})
+    pf = sorted(rng.sample(range(20), 5))
+    out.append({"id": "2EQQ-cellmix", "kind": "file", "path": pdb, "frames": pf, "cell": rng.choice(["OTTOT", "OOTTO"]),
+                "cell_seed": rng.randrange(10 ** 6), "cell_size": [2.6, 3.6], "only": PERIODIC})
     if not quick:
+        for p in pats:
+            if p not in (first_o, first_t):
+                out.append({"id": "cellmix-" + p, "kind": "random", "n_atoms": 36, "n_frames": 9, "seed": rng.randrange(10 ** 6),
+                            "cell": p, "cell_seed": rng.randrange(10 ** 6), "only": PERIODIC})
+        out.append({"id": "2EQQ-cellmix-T", "kind": "file", "path": pdb, "frames": list(range(0, 20, 2)), "cell": "TOOTOT",
+                    "cell_seed": rng.randrange(10 ** 6), "cell_size": [2.6, 3.6], "only": PERIODIC})
         out.append({"id": "2EQQ-all", "kind": "file", "path": pdb, "frames": list(range(20)), "box": False})
         out.append({"id": "one-frame", "kind": "random", "n_atoms": 32, "n_frames": 1, "seed": rng.randrange(10 ** 6), "box": True})
         out.append({"id": "rand-big", "kind": "random", "n_atoms": 400, "n_frames": 17, "seed": rng.randrange(10 ** 6), "box": True})
